@@ -440,7 +440,9 @@ CaseResult run_ef(const RunCtx &ctx, TapeReader &t, unsigned size_hint) {
     o.xprocs = ctx.x("xprocs");
     o.allow_giant = ctx.mode != "mem";
     o.pow2_span_edge = true;
-    o.ef_bimodal = ctx.mode != "mem";
+    o.ef_bimodal_often = ctx.mode == "mem";
+    if (ctx.mode == "mem" && sizeof(K) == 8 && t.chance(1, 3)) o.force_bimodal = true; // C17 runs few cases: a fixed share of them takes the long-superblock paths
+    o.ef_bimodal = true; // also under AddressSanitizer (C17): the long-superblock branches of the select supports allocate and index arrays
     o.exact_segments = true;
     std::vector<K> keys = gen_keys<K>(t, o, meta);
 
@@ -453,6 +455,33 @@ CaseResult run_ef(const RunCtx &ctx, TapeReader &t, unsigned size_hint) {
 
     vf_set_threads(meta.threads);
     using Index = EFProbe<K, Eps, F>;
+    // bimodal arrays, 2 in 3: the last key (a far, isolated key: a segment of its own) is moved so that the number of Elias-Fano buckets of
+    // the code over the segment keys - the zeros of its high bit vector - is a multiple of 4096 or up to 62 below one.  The select-0
+    // support scans whole words, and the padding zeros of the last word then start a superblock of their own.  The geometry is read
+    // from a first build of the same array.
+    const bool steer_zeros = t.below(3) != 0;
+    if (std::string(meta.size_class) == "bimodal" && steer_zeros && !o.xkeys && ctx.execute && keys.size() >= 100) {
+        Index probe(keys.begin(), keys.end());
+        const size_t ones = probe.ef.low.size(), hs = probe.ef.high.size(), zeros = hs - ones;
+        const unsigned wl = probe.ef.wl;
+        if (zeros > 8192 && wl >= 1 && wl < 60 && ones >= 2) {
+            SplitMix pr2(meta.query_seed ^ 0x5bd1e995);
+            // the next multiple above (the last key only moves up), minus r with r < padding bits of the resulting vector
+            const size_t mult = (zeros / 4096 + 1) * 4096;
+            size_t r = 0, tries = 0;
+            do r = pr2.below(63);
+            while (++tries < 200 && !(r < (64 - (ones + mult - r) % 64) % 64));
+            const unsigned __int128 target = (unsigned __int128) mult - r;
+            const unsigned __int128 nu = ((target - 1) << wl) + 1 + (pr2.next() & ((uint64_t(1) << wl) - 1));
+            const unsigned __int128 nl = (unsigned __int128) keys.front() + nu - 1;
+            const long double ideal = std::log2((long double) nu * 0.6931471805599453L / (long double) ones);
+            if (nl > (unsigned __int128) keys[keys.size() - 2] && nl < (unsigned __int128) std::numeric_limits<K>::max() &&
+                (unsigned) std::llround(std::max<long double>(ideal, 1.0L)) == wl) {
+                keys.back() = (K) nl;
+                res.label("ef_bucket_count_steered");
+            }
+        }
+    }
     std::unique_ptr<Index> idx;
     Bystander<Index, K> bystander;
     try {
@@ -482,6 +511,29 @@ CaseResult run_ef(const RunCtx &ctx, TapeReader &t, unsigned size_hint) {
                 }
         if (ones % 64 == 1) res.label("ef_ones_1_mod_64");
         if (ones >= 4096 && ones % 4096 == 0) res.label("ef_ones_multiple_of_4096");
+        {
+            size_t zeros = hs - ones, pad = (64 - hs % 64) % 64;
+            if (zeros >= 4096 && (4096 - zeros % 4096) % 4096 < pad) res.label("ef_zeros_within_padding_of_a_multiple_of_4096");
+            if (hs >= 100000) res.label("ef_high_ge_100000_bits");
+            if (hs >= 100000 && zeros >= 4096 && (4096 - zeros % 4096) % 4096 < pad) res.label("ef_high_ge_100000_bits_and_zeros_within_padding_of_a_multiple_of_4096");
+            if (hs >= 100000) { // does the select-0 support own a FULL long superblock (4096 zeros spanning more than log^4 bits)?
+                size_t logn = 1;
+                while ((size_t(1) << logn) <= hs) ++logn;
+                const size_t logn4 = logn * logn * logn * logn;
+                size_t cnt = 0, first_pos = 0;
+                bool full_long = false;
+                for (size_t i = 0; i < hs && !full_long; ++i)
+                    if (!idx->ef.high[i]) {
+                        if (cnt == 0) first_pos = i;
+                        if (++cnt == 4096) {
+                            if (i - first_pos > logn4) full_long = true;
+                            cnt = 0;
+                        }
+                    }
+                if (full_long) res.label("ef_select0_full_long_superblock");
+                if (full_long && zeros >= 4096 && (4096 - zeros % 4096) % 4096 < pad) res.label("ef_select0_full_long_superblock_and_phantom_block");
+            }
+        }
         if (ones >= 65 && ones % 64 == 1 && hs >= 8 && ((hs - 2) & (hs - 3)) == 0) res.label("ef_ones_ge65_1_mod_64_and_high_2^t+2");
     }
 
